@@ -277,7 +277,7 @@ class HTMLAttributeDict(AttributeDict):
         """Set an attribute value, possibly modifying it to comply
         with the HTML spec,
         """
-        if value in (False, None):
+        if value is False or value is None:
             # 'The values "true" and "false" are not allowed on
             # boolean attributes. To represent a false value, the
             # attribute has to be omitted altogether.'
